@@ -93,7 +93,8 @@ func docEquals(rv reflect.Value, doc any, tagKey string) (bool, string) {
 		if !ok {
 			return false, fmt.Sprintf("float field from %T document value", doc)
 		}
-		bf, _, err := big.ParseFloat(t, 10, 256, big.ToNearestEven)
+		// (digit separators as in Go's own floating-point literals are read as the same number)
+		bf, _, err := big.ParseFloat(strings.ReplaceAll(t, "_", ""), 10, 256, big.ToNearestEven)
 		if err != nil {
 			return false, fmt.Sprintf("float field = %v but the document value %s is not a number", rv.Float(), t)
 		}
